@@ -172,6 +172,17 @@ class Resolver:
         return out
 
 
+def _precisely_resolved(call: ast.Call) -> bool:
+    """Only calls whose callee does not depend on the run-time type of an arbitrary receiver are inlined:
+    f(...), self.m(...), cls.m(...), Module.f(...), Class.m(...)."""
+    f = call.func
+    if isinstance(f, ast.Name):
+        return True
+    if isinstance(f, ast.Attribute) and isinstance(f.value, ast.Name):
+        return f.value.id in ("self", "cls") or f.value.id[:1].isupper() or f.value.id in ("svg_meta", "svg_pathops", "svg_types")
+    return False
+
+
 def _enclosing_def(node, top):
     p = getattr(node, "_parent", None)
     while p is not None and p is not top:
@@ -218,7 +229,7 @@ class Events:
                 for l in labs:
                     out.append((l, True, call))
                 continue
-            if depth > 0:
+            if depth > 0 and _precisely_resolved(call):
                 for k in callees:
                     if not self.inline_filter(k) or "<locals>" in k[1]:
                         continue
